@@ -198,7 +198,14 @@ pub fn run_a(sc: &ScenarioA, keep_events: bool) -> OutcomeA {
     } else if harness_error.is_none() {
         // end-of-run accounting (C05)
         if let Some(v) = &sim.liveness_violation {
-            found.push(Found { class: "stop-not-honoured".into(), message: v.clone(), signature: "stop-not-honoured".into() });
+            let class = if v.contains("still polling") {
+                "stop-not-honoured"
+            } else if v.contains("expired limit ignored") {
+                "limit-ignored"
+            } else {
+                "command-stuck"
+            };
+            found.push(Found { class: class.into(), message: v.clone(), signature: class.into() });
         }
         match &main_result {
             Some(Ok(())) => {}
